@@ -177,6 +177,8 @@ package engine
 //@   ensures snapshots: forall i :: { result.backtrack.store[i] } 0 <= i && i < len(es.backtrack.store) ==> result.backtrack.store[i] == es.backtrack.store[i]
 //@   ensures loops: forall i :: { result.loopStack.store[i] } 0 <= i && i < len(es.loopStack.store) ==> result.loopStack.store[i] == es.loopStack.store[i]
 //@   ensures calls: forall i :: { result.callStack.store[i] } 0 <= i && i < len(es.callStack.store) ==> result.callStack.store[i] == es.callStack.store[i]
+//@   ensures self: result.backtrack.store.ref != result.ref || result.backtrack.store.ref == 0
+//@   ensures ok: cellOk(es) ==> cellOk(result)
 //@   ensures vars: forall i :: { result.variableStack.store[i] } 0 <= i && i < len(es.variableStack.store) ==> result.variableStack.store[i] == es.variableStack.store[i]
 
 //@ func (*SearchEngineState).Set [C03 C09 C02]
